@@ -32,6 +32,9 @@ REGIMES = {
     "bulk2": {"NConv": 2, "MaxSeg": 2, "MaxDup": 1, "MaxDisp": 1, "MaxSwap": 1, "MaxCuts": 3, "MinCuts": 2,
               "MaxAck": 1, "MaxBulk": 2, "MinBulk": 2, "WantCutAfterBulk": "TRUE", "BatchMode": '"chrono"',
               "SingleFileBatches": "TRUE"},
+    # long-lived UDP flows between one pair of hosts (one bucket of the reassembler's table): flows end and expire while
+    # others, opened earlier, go on with gaps below the 5 minute timeout
+    "udpslow": {"Protos": '{"udp"}', "Fams": "{4}", "Dts": "{0, 120000}", "MaxMsgs": 6, "MaxLen": 2, "MaxSwap": 0, "MaxDup": 0},
     # IPv4 packets split into two IP fragments (in order or reversed), next to reordering, duplicates and cuts
     "frag": {"Fams": "{4}", "MaxFrag": 4, "MaxLen": 4, "MaxSeg": 3, "MaxDup": 2, "MaxSwap": 2},
     # worlds for C08: exactly four capture files, batching left to Import.tla
@@ -455,8 +458,8 @@ def run_c05(ctx):
     picked = exhaustive if len(exhaustive) <= n_ex else rng.sample(exhaustive, n_ex)
     # (A) seeded simulation beyond
     base = ctx.seed * 100
-    plan = ([("fast", 40, 2), ("slow", 30, 2), ("deep", 30, 1), ("frag", 30, 2), ("bulk", 5, 2), ("bulkany", 2, 1)] if quick else
-            [("fast", 200, 8), ("slow", 120, 6), ("deep", 120, 6), ("frag", 120, 6), ("bulk", 6, 6), ("bulkany", 5, 4), ("bulk2", 3, 3)])
+    plan = ([("fast", 40, 2), ("slow", 30, 2), ("deep", 30, 1), ("frag", 30, 2), ("udpslow", 30, 2), ("bulk", 5, 2), ("bulkany", 2, 1)] if quick else
+            [("fast", 200, 8), ("slow", 120, 6), ("deep", 120, 6), ("frag", 120, 6), ("udpslow", 120, 6), ("bulk", 6, 6), ("bulkany", 5, 4), ("bulk2", 3, 3)])
     sims = []
     for i, (regime, num, nseeds) in enumerate(plan):
         if only and regime not in only:
